@@ -318,7 +318,7 @@ DEFAULT_WEIGHTS = {
     "merge": 0, "combine": 0, "split": 0, "unsat_core": 0, "pickle": 0, "pickle_expr": 0, "g_truth": 0, "new": 0,
     "add_replacement": 0, "split_recombine": 0, "merge3": 0,
     # multi-step shapes random walks rarely produce (DESIGN 9.6.1); cheap, so on everywhere with a small weight
-    "exhaust_batch": 2, "span_branch_add": 0, "late_unsat": 2, "bridge_split": 0, "split_cross": 0, "branch_simplify_add": 0, "pairwise_derive": 0, "drop_reuse": 1, "double_branch": 1, "remove_replacement": 0, "branch_replacement": 0, "combine3": 0,
+    "exhaust_batch": 2, "span_branch_add": 0, "late_unsat": 2, "bridge_split": 0, "split_cross": 0, "branch_simplify_add": 0, "pairwise_derive": 0, "drop_reuse": 1, "double_branch": 1, "remove_replacement": 0, "branch_replacement": 0, "combine3": 0, "merge_ancestor": 0, "replace_query_remove": 0,
 }
 
 QUERY_KINDS = ("sat", "probe", "eval", "batch_eval", "min", "max", "solution", "is_true", "is_false")
@@ -743,6 +743,12 @@ class HistoryGen:
             return
         elif kind == "split_cross":
             self.macro_split_cross(hi, h)
+            return
+        elif kind == "merge_ancestor":
+            self.macro_merge_ancestor(hi, h, live)
+            return
+        elif kind == "replace_query_remove":
+            self.macro_replace_query_remove(hi, h, live)
             return
         elif kind == "combine3":
             self.macro_combine3(hi, h, live)
@@ -1293,6 +1299,73 @@ class HistoryGen:
             else:
                 self.emit(self.exact_op(h, {"op": "max", "h": -1, "e": ["var", b], "signed": False, "extra": []}))
 
+    def macro_merge_ancestor(self, hi, h, live):
+        """a base with "holes" in a variable's range (which an interval cannot express), two branches of it that go different
+        ways, then a merge WITH the base as common ancestor, then exact questions about the variable on the merged solver"""
+        r = self.r
+        if h.ref.kind != "enum" or len(live) >= self.max_handles - 1:
+            return
+        eg = self.egf(h)
+        if not eg.bvs or eg.simple:
+            return
+        x = r.choice(eg.bvs)
+        w = self.vars[x]
+        if w < 2:
+            return
+        vx = ["var", x]
+        self.emit({"op": "new", "cls": h.cls, "kw": dict(h.kw or {})})
+        base = len([z for z in self.handles if z.alive]) - 1
+        self.emit({"op": "add", "h": base, "cs": [["ne", vx, ["const", r.below(1 << w), w]]]})
+        if r.chance(60):
+            self.emit({"op": "add", "h": base, "cs": [["ne", ["and", vx, ["const", 1, w]], ["const", r.below(2), w]]] if eg.ok("and") else [["ne", vx, ["const", r.below(1 << w), w]]]})
+        if r.chance(50):
+            self.emit(self.exact_op(h, {"op": "eval", "h": base, "e": vx, "n": 2, "extra": []}))
+        self.emit({"op": "branch", "h": base})
+        self.emit({"op": "branch", "h": base})
+        b1, b2 = base + 1, base + 2
+        if self.flag:
+            fw = self.vars[self.flag]
+            conds = [["eq", ["var", self.flag], ["const", i, fw]] for i in range(2)]
+        else:
+            conds = [self.eg.boolean(1) for _ in range(2)]
+        others = [n for n in eg.bvs if n != x]
+        for bi in (b1, b2):
+            if others and r.chance(70):
+                y = r.choice(others)
+                self.emit({"op": "add", "h": bi, "cs": [[r.choice(["ule", "uge", "ne"]), ["var", y], ["const", r.below(1 << self.vars[y]), self.vars[y]]]]})
+        self.emit({"op": "merge", "h": b1, "others": [b2], "conds": conds, "ancestor": base})
+        for _ in range(r.range(2, 4)):
+            k = r.choice(["eval", "solution", "sat", "max"])
+            if k == "eval":
+                self.emit(self.exact_op(h, {"op": "eval", "h": -1, "e": vx, "n": (1 << w) + 1, "extra": []}))
+            elif k == "solution":
+                self.emit(self.exact_op(h, {"op": "solution", "h": -1, "e": vx, "v": r.below(1 << w), "extra": []}))
+            elif k == "sat":
+                self.emit({"op": "sat", "h": -1, "extra": [["eq", vx, ["const", r.below(1 << w), w]]]})
+            else:
+                self.emit(self.exact_op(h, {"op": "max", "h": -1, "e": vx, "signed": False, "extra": []}))
+
+    def macro_replace_query_remove(self, hi, h, live):
+        """SolverReplacement: a replacement set by the user, a query on a COMPOUND term over the replaced variable, the
+        replacement removed again, the same query again"""
+        r = self.r
+        if h.cls != "SolverReplacement":
+            return
+        op = self.add_replacement_op(hi, h)
+        if op is None:
+            return
+        n = op["var"]
+        w = self.vars[n]
+        vx = ["var", n]
+        e = r.choice([["add", vx, ["const", r.range(1, (1 << w) - 1), w]], ["xor", vx, ["const", r.range(1, (1 << w) - 1), w]], ["sub", ["const", 0, w], vx]])
+        self.emit(op)
+        q = {"op": r.choice(["eval", "max", "min"]), "h": hi, "e": e, "extra": []}
+        q.update({"n": r.choice([1, 2, (1 << w) + 1])} if q["op"] == "eval" else {"signed": False})
+        self.emit(q)
+        self.emit({"op": "remove_replacement", "h": hi, "var": n})
+        self.emit(dict(q))
+        self.emit({"op": "eval", "h": hi, "e": e, "n": (1 << w) + 1, "extra": []})
+
     def macro_merge3(self, hi, h, live):
         """C15: a three-way merge in which two participants share state (branches of one base) and the third has an
         unrelated history that constrains the same variables differently"""
@@ -1678,7 +1751,7 @@ PROFILES = {
         "approx_first_always_exact": True,
         "dup_in_list_pct": 12,
         "echo_pct": 20,
-        "weights": {"pickle": 2, "downsize": 4, "branch": 6, "add_replacement": 3, "remove_replacement": 2, "branch_replacement": 3},
+        "weights": {"pickle": 2, "downsize": 4, "branch": 6, "add_replacement": 3, "remove_replacement": 2, "branch_replacement": 3, "replace_query_remove": 4, "merge_ancestor": 3},
         "pickle_modes": ["replace"],
     },
     "C13approx": {
@@ -1747,7 +1820,7 @@ PROFILES = {
         "concrete_pct": 4,
         "length": (6, 36),
         "weights": {"branch": 14, "merge": 9, "combine": 8, "split": 6, "add": 24, "new": 4, "split_recombine": 4, "merge3": 4,
-                    "bridge_split": 4, "split_cross": 3, "combine3": 4},
+                    "bridge_split": 4, "split_cross": 3, "combine3": 4, "merge_ancestor": 5},
         "never_swarm_out": ("branch",),
         "initial_handles": (1, 2),
         "max_handles": 6,
